@@ -84,7 +84,9 @@ CuNil == 255
 IsNil(f, x) == (f.opt /\ ~x.some) \/ (f.ty = "cu" /\ f.opt /\ x.n = CuNil)
 
 \* ---- the documented encoding -------------------------------------------------------------
-TagPrefix(t) == IF t < 0 THEN <<>> ELSE PreferredHead(6, FromNat(t))
+\* tag numbers: -1 none, a natural below 2^31, or a code for a number beyond TLC's integers: -2 is 2^32, -3 is 2^64 - 1
+TagNum(t) == CASE t = -2 -> <<0, 0, 0, 1, 0, 0, 0, 0>> [] t = -3 -> Max64 [] OTHER -> FromNat(t)
+TagPrefix(t) == IF t = -1 THEN <<>> ELSE PreferredHead(6, TagNum(t))
 Uint(n) == PreferredHead(0, FromNat(n))
 (* A perturbation pt = [site, i, how] damages exactly one tag of the top-level type: site "top" (the struct's / enum's   *)
 (* tag), "var" (the variant's tag), "f" (the tag of field i of the body); how = "wrong" (another tag number) or         *)
@@ -94,7 +96,7 @@ NoPt == [site |-> "none", i |-> 0, how |-> "none", fr |-> "def"]
 (* of nesting - is written as an indefinite-length array / map (C09: "whether the input container is definite or indefinite"); *)
 (* the [index, body] pair of an enum stays a definite 2-element array, which is what the documented format makes it.          *)
 IndefPt == [site |-> "none", i |-> 0, how |-> "none", fr |-> "indef"]
-TagP(t, hit, pt) == IF ~hit THEN TagPrefix(t) ELSE IF pt.how = "wrong" THEN PreferredHead(6, FromNat(t + 1)) ELSE <<>>
+TagP(t, hit, pt) == IF ~hit THEN TagPrefix(t) ELSE IF pt.how = "wrong" THEN PreferredHead(6, IF t = -3 THEN Dec(TagNum(t)) ELSE Inc(TagNum(t))) ELSE <<>>
 RECURSIVE DocEncP(_, _, _), EncFieldF(_, _, _), EncBodyP(_, _, _, _), EncArrP(_, _, _, _, _), EncMapBP(_, _, _, _)
 DocEnc(S, v) == DocEncP(S, v, NoPt)
 \* the value of a field (not nil), without its tag
@@ -144,13 +146,13 @@ DocEncP(S, v, pt) ==
 \* the places of a value's encoding where a tag stands (present fields only: an absent tagged field may be a bare null)
 TagSites(S, v) ==
    IF S.kind = "struct" THEN
-      (IF S.transparent THEN {} ELSE (IF S.tag >= 0 THEN {[site |-> "top", i |-> 0]} ELSE {})
-                                     \cup { [site |-> "f", i |-> i] : i \in { j \in Present(S.fields, v) : S.fields[j].tag >= 0 } })
+      (IF S.transparent THEN {} ELSE (IF S.tag # -1 THEN {[site |-> "top", i |-> 0]} ELSE {})
+                                     \cup { [site |-> "f", i |-> i] : i \in { j \in Present(S.fields, v) : S.fields[j].tag # -1 } })
    ELSE LET va == S.variants[v.var] IN
-        (IF S.tag >= 0 THEN {[site |-> "top", i |-> 0]} ELSE {})
+        (IF S.tag # -1 THEN {[site |-> "top", i |-> 0]} ELSE {})
         \cup (IF S.index_only THEN {} ELSE
-               (IF va.tag >= 0 THEN {[site |-> "var", i |-> 0]} ELSE {})
-               \cup (IF va.shape = "unit" THEN {} ELSE { [site |-> "f", i |-> i] : i \in { j \in Present(va.fields, v.fv) : va.fields[j].tag >= 0 } }))
+               (IF va.tag # -1 THEN {[site |-> "var", i |-> 0]} ELSE {})
+               \cup (IF va.shape = "unit" THEN {} ELSE { [site |-> "f", i |-> i] : i \in { j \in Present(va.fields, v.fv) : va.fields[j].tag # -1 } }))
 Perturbations(S, v) == { [site |-> x.site, i |-> x.i, how |-> h, fr |-> "def"] : x \in TagSites(S, v), h \in {"wrong", "missing"} }
 \* the derived CborLen must be the length of exactly that
 DerLen(S, v) == Len(DocEnc(S, v))
@@ -204,7 +206,7 @@ EncFramed(x, m) ==
      [] x.t = "tag"    -> FHead(6, x.n, m) \o EncFramed(x.x, m)
      [] OTHER          -> Enc(x)
 \* the outermost container of the body written with a wider head, or as an indefinite-length container
-TopHeadOffset(S) == IF S.tag < 0 THEN 0 ELSE Len(TagPrefix(S.tag))
+TopHeadOffset(S) == IF S.tag = -1 THEN 0 ELSE Len(TagPrefix(S.tag))
 WiderTop(S, b) == LET p == TopHeadOffset(S)  h == HeadAt(b, p) IN
    IF h.major \in {4, 5} /\ h.hl = 1 THEN SubSeq(b, 1, p) \o HeadBytes(h.major, h.arg, 2) \o SubSeq(b, p + 2, Len(b)) ELSE b
 IndefTop(S, b) == LET p == TopHeadOffset(S)  h == HeadAt(b, p) IN
